@@ -38,6 +38,16 @@ func c12Oracle(w *nWorld, pi int, offer *sdp.SessionDescription) (fail *Verdict,
 		}
 	}
 	hasApp = apps > 0
+	// cause first: CreateOffer itself left two transceivers with the same mid (its
+	// numbering ignores later transceivers and a pending remote description)
+	seenMid := map[string]int{}
+	for ti, t := range tcvs {
+		if prev, ok := seenMid[t.Mid()]; ok && t.Mid() != "" {
+			return bad("createoffer-duplicate-transceiver-mid",
+				fmt.Sprintf("transceivers %d and %d both have mid %q after a successful CreateOffer", prev, ti, t.Mid())), 0, hasApp
+		}
+		seenMid[t.Mid()] = ti
+	}
 	// sentence 1: each transceiver has exactly one m-section, carrying its mid, kind, direction
 	if len(media) != len(tcvs) {
 		return bad("section-count-differs-from-transceivers",
@@ -296,6 +306,17 @@ func init() {
 				nOp{P: 0, K: nAddTcvTrack, Kind: 2, Dir: 2, ID: "tc", Stream: "s1", RID: "q"},
 				nOp{P: 0, K: nAddEncoding, TI: 2, Kind: 2, ID: "tc", Stream: "s1", RID: "h"},
 				nOp{P: 0, K: nOffer})},
+			// witness of c12_one_section_per_mid_refuted (known finding
+			// createoffer-duplicate-transceiver-mid)
+			{Ops: []nOp{
+				{P: 0, K: nAddTrack, Kind: 2, ID: "ta", Stream: "s2"},
+				{P: 0, K: nOffer},
+				{P: 1, K: nAddTcvKind, Kind: 1, Dir: 3},
+				{P: 1, K: nDeliverO},
+				{P: 1, K: nOffer}}},
+			// witness of c12_app_iff_local_only_refuted: the remote offer's
+			// application section is mirrored in this side's next offer
+			{Ops: append(append([]nOp{{P: 1, K: nDataChannel}}, nExchange(1)...), nOp{P: 0, K: nOffer})},
 			// RemoveTrack / ReplaceTrack(nil) / ReplaceTrack then offer
 			{Engine: [2]int{3, 1}, Ops: []nOp{
 				{P: 0, K: nAddTrack, Kind: 2, ID: "ta", Stream: "s1"},
@@ -311,7 +332,7 @@ func init() {
 	Register(Spec[nCase]{
 		ID: "C12", Suite: "hist", CoqImports: []string{"Model.OfferShape", "Check.C12"},
 		CoqType: "list (bool * list op)", CoqRun: nCoqRun("Check.C12.run", "Check.C12.run_d"),
-		Quick: 500, Thorough: 12000, Parallel: 8, Timeout: 60 * time.Second,
+		Quick: 300, Thorough: 8000, Parallel: 8, Timeout: 60 * time.Second,
 		Corpus: corpus,
 		Gen:    func(r *Rand, i int) nCase { return nGenCase(r, true) },
 		Run: func(c nCase) (V, Verdict) {
